@@ -57,7 +57,10 @@ Definition check_X_y (d : desc) : vres := vres_of (a_check_len (abstract d)).
 (* ---------------------------------------------------------------- validation traces *)
 Inductive action :=
 | CheckFitted                                   (* if not self._is_fitted: raise AttributeError *)
-| CheckY | CheckX (nf cats : bool) | CheckArray | CheckLen | CheckXy
+| CheckY (params_validated : bool)              (* check_y(y, self.link, self.distribution); the flag: self._validate_params()
+                                                   ran earlier in this call (before it, on a never fitted model, self.link is
+                                                   still the constructor string and the domain test dies with AttributeError) *)
+| CheckX (nf cats : bool) | CheckArray | CheckLen | CheckXy
 | NeedsArray (what : string)                    (* .ravel() / .astype() / .shape read off the argument as passed *)
 | Use (what : string)                           (* any other read of the argument: terminal *)
 | IfUnfitted (body : list action)               (* if not self._is_fitted: body *)
@@ -79,7 +82,9 @@ Fixpoint run_action (fitted skip : bool) (a : adesc) (act : action) {struct act}
     end in
   match act with
   | CheckFitted => if fitted then None else Some RaisedAE
-  | CheckY => if a_check_y a then Some RaisedVE else None
+  | CheckY pv => if a_check_array false a then Some RaisedVE
+                 else if fitted || pv then (if a_check_y a then Some RaisedVE else None)
+                 else Some RaisedAE
   | CheckX nf cats => if a_check_X nf cats a then Some RaisedVE else None
   | CheckArray => if a_check_array false a then Some RaisedVE else None
   | CheckLen | CheckXy => if a_check_len a then Some RaisedVE else None
